@@ -180,7 +180,7 @@ contract(E + 'Engine.run_steps', props=['C05', 'C04', 'C07', 'C06'],
                 'layers = self._step_graph.get_execution_layers()': {'after': ['self.g_steps_run = self.g_steps_run + 1']}})
 
 TOK = "alt(update_tuples[%s], 'pending')[0]"
-contract(E + 'Engine._send_updates', props=['C01', 'C05', 'C12'],
+contract(E + 'Engine._send_updates', props=['C01', 'C05', 'C12', 'C04', 'C07'],
          types={'update_tuples': 'Seq[Upd]', 'update_tuple': 'Upd', 'update': 'Ref[Defer]', 'state': 'Ref[Store]',
                 'view_expire': 'Bool', 'view_expire_update': 'Bool', 'i': 'Int', 'j': 'Int', 'd': 'Ref[Defer]'},
          requires=['self.g_views_valid',
